@@ -825,6 +825,8 @@ def check_c15(model, rep, tier):
                        "release short/version are single-line strings (prefix alphabet = any character but newline)"]
     table = r_suffix_tables(model, rep)
     r_cid_validator(model, rep, table)
+    from .validation import r_assert_helpers
+    r_assert_helpers(model, rep)      # R-CID-VALIDATOR assumes the helper applies pattern.match (prefix semantics)
     r_cid_decode(model, rep, table, tier)
     r_cid_glue(model, rep)
     r_cid_format(model, rep)
